@@ -53,7 +53,7 @@ static void guard_install()
 }
 template <class F> static int guarded(F f)
 {
-	int s = sigsetjmp(g_jmp, 1);
+	int s = sigsetjmp(g_jmp, 0);   // handler runs with SA_NODEFER and an empty mask: nothing to restore
 	if (s) { mc::lib_depth = 0; return s; }
 	g_guard = 1; f(); g_guard = 0;
 	return 0;
@@ -200,6 +200,10 @@ struct HSys {
 	CountMeta *meta[MAXN];
 	Forest cur;                 // structure (verified consistent after every step)
 	bool broken;
+	uint64_t t0;                // r.transitions at construction: the engine bumps it right before the step under test
+	// counters and the read-only observers only for the step under test, not while a history prefix is re-executed
+	bool live() const { return r.replaying || r.transitions != t0; }
+	void cnt(const std::string &k) { if (live()) r.count(k); }
 
 	int idx(const mpt::node *q) const { if (!q) return -1; for (int i = 0; i < g_N; ++i) if (cur.alive[i] && p[i] == q) return i; return -2; }
 
@@ -223,10 +227,15 @@ struct HSys {
 		if (parent >= 0) { p[parent]->children = l.empty() ? 0 : p[l[0]]; cur.kids[parent] = l; }
 		else if (!l.empty()) cur.rl.push_back(l);
 	}
-	HSys(Run &run, uint64_t init) : r(run), broken(false)
+	size_t lbase;
+	HSys(Run &run, uint64_t init) : r(run), broken(false), t0(run.transitions)
 	{
 		guard_install();
-		metas_clear(); ledger_reset();
+		metas_clear();
+		// resetting the ledger clears a 4 MB table: only when tombstones pile up or an earlier (violating) case leaked
+		static unsigned nsys = 0;
+		if (ledger_live() || (++nsys & 1023) == 0) ledger_reset();
+		lbase = ledger_live();
 		for (int i = 0; i < MAXN; ++i) { p[i] = 0; meta[i] = 0; }
 		for (int i = 0; i < g_N; ++i) make(i);
 		std::vector<int> all; for (int i = 0; i < g_N; ++i) all.push_back(i);
@@ -384,7 +393,7 @@ struct HSys {
 			if (t.seen != want) return fail("wrong-sequence", "visited " + seq_str(t.seen) + ", documented order gives " + seq_str(want));
 			op_desc = od;
 		}
-		r.count("observer:traversals(4 orders x 3 filters per root list)");
+		cnt("observer:traversals(4 orders x 3 filters per root list)");
 		return true;
 	}
 
@@ -444,9 +453,9 @@ struct HSys {
 		auto place = [&](std::vector<int> &l, int head_idx, int pos, bool exact_family) {
 			// where does pos put b in list l when counting from l[head_idx]?  exact only where the code states it
 			int n = (int) l.size();
-			if (exact_family && pos == 0) { l.push_back(b); r.count("insert:exact position checked"); return; }
-			if (exact_family && pos >= 1 && head_idx == 0 && pos - 1 <= n) { l.insert(l.begin() + (pos - 1), b); r.count("insert:exact position checked"); return; }
-			l.push_back(b); freepos.insert(b); r.count("insert:position free (only link invariants + membership)");
+			if (exact_family && pos == 0) { l.push_back(b); cnt("insert:exact position checked"); return; }
+			if (exact_family && pos >= 1 && head_idx == 0 && pos - 1 <= n) { l.insert(l.begin() + (pos - 1), b); cnt("insert:exact position checked"); return; }
+			l.push_back(b); freepos.insert(b); cnt("insert:position free (only link invariants + membership)");
 		};
 		switch (d.k) {
 		case CREATE: {
@@ -455,7 +464,7 @@ struct HSys {
 			E.alive[a] = true; E.par[a] = -1; E.kids[a].clear(); E.rl.push_back(std::vector<int>(1, a));
 			break; }
 		case AFTER: case BEFORE: {
-			if (a == b) { sig_cls = "self"; r.count("insert:self reference ignored"); }
+			if (a == b) { sig_cls = "self"; cnt("insert:self reference ignored"); }
 			else {
 				E.detach(b);
 				std::vector<int> &l = E.list_of(a); int i = E.index_of(a);
@@ -478,7 +487,7 @@ struct HSys {
 			std::vector<int> &l = E.kids[a];
 			sig_cls = std::string(poscls(d.pos)) + (l.empty() ? ",no-children" : ",has-children");
 			if (d.k == NINS && !l.empty()) sig_cls += name_in(l, g_name[b]) ? ",name-present" : ",name-absent";
-			if (l.empty()) { l.push_back(b); r.count("insert:first child"); } else place(l, 0, d.pos, d.k == GINS);
+			if (l.empty()) { l.push_back(b); cnt("insert:first child"); } else place(l, 0, d.pos, d.k == GINS);
 			E.par[b] = a;
 			int ret = 0;
 			sig = guarded([&] { ret = d.k == GINS ? LIB(mpt::mpt_gnode_insert(pa, d.pos, pb)) : LIB(mpt::mpt_node_insert(pa, d.pos, pb)); });
@@ -503,7 +512,7 @@ struct HSys {
 			if (mi.reparent) sig_cls += std::string(sig_cls.empty() ? "" : "+") + "children-reparented";
 			if (mi.recursive) sig_cls += std::string(sig_cls.empty() ? "" : "+") + "children-merged";
 			if (sig_cls.empty()) sig_cls = "leading-elements-moved";
-			r.count("move:" + sig_cls);
+			cnt("move:" + sig_cls);
 			mpt::node *handle = pa, **from = spar >= 0 ? &p[spar]->children : &handle;
 			size_t ret = 0;
 			sig = guarded([&] { ret = LIB(mpt::mpt_node_move(from, pb)); });
@@ -523,8 +532,8 @@ struct HSys {
 				if (d.k == TCLONE) depth = F.depth_below(a);
 				else { const std::vector<int> &l = F.list_of(a); for (size_t k = F.index_of(a); k < l.size(); ++k) depth = std::max(depth, F.depth_below(l[k])); }
 				sig_cls = depth == 0 ? "flat" : (depth == 1 ? "one-level-of-children" : "children-of-children");
-				if (depth >= 1) r.count(std::string(d.k == TCLONE ? "tree_clone" : "list_clone") + ":with children");
-				if (depth >= 2) r.count(std::string(d.k == TCLONE ? "tree_clone" : "list_clone") + ":depth>=2 below the cloned level");
+				if (depth >= 1) cnt(std::string(d.k == TCLONE ? "tree_clone" : "list_clone") + ":with children");
+				if (depth >= 2) cnt(std::string(d.k == TCLONE ? "tree_clone" : "list_clone") + ":depth>=2 below the cloned level");
 			}
 			mpt::node *cpy = 0;
 			sig = guarded([&] { cpy = d.k == NCLONE ? LIB(mpt::mpt_node_clone(pa)) : (d.k == LCLONE ? LIB(mpt::mpt_list_clone(pa)) : LIB(mpt::mpt_tree_clone(pa))); });
@@ -554,7 +563,7 @@ struct HSys {
 			break; }
 		case CLEAR: {
 			sig_cls = F.kids[a].empty() ? "leaf" : (F.depth_below(a) > 1 ? "children-of-children" : "children");
-			if (F.depth_below(a) > 1) r.count("clear:recursive");
+			if (F.depth_below(a) > 1) cnt("clear:recursive");
 			for (int c : F.kids[a]) F.subtree(c, deaths);
 			E.kids[a].clear();
 			sig = guarded([&] { LIB(mpt::mpt_node_clear(pa)); });
@@ -562,8 +571,8 @@ struct HSys {
 		case DESTROY: {
 			bool linked = F.linked(a);
 			sig_cls = std::string(linked ? (F.par[a] >= 0 ? "child" : "root-in-list") : "free") + (F.kids[a].empty() ? ",leaf" : ",with-children");
-			if (!linked) { F.subtree(a, deaths); E.detach(a); r.count(F.kids[a].empty() ? "destroy:leaf" : "destroy:subtree"); }
-			else r.count("destroy:linked node (must be refused)");
+			if (!linked) { F.subtree(a, deaths); E.detach(a); cnt(F.kids[a].empty() ? "destroy:leaf" : "destroy:subtree"); }
+			else cnt("destroy:linked node (must be refused)");
 			mpt::node *ret = 0;
 			sig = guarded([&] { ret = LIB(mpt::mpt_node_destroy(pa)); });
 			if (!sig && !asan_peek()) {
@@ -594,12 +603,12 @@ struct HSys {
 				// "can be used after manual concatenation": forward links (children/next) are the reference
 				std::vector<int> sub; for (int c : F.kids[a]) F.subtree(c, sub);
 				for (int x : sub) { p[x]->prev = 0; p[x]->parent = 0; }
-				if (dep > 1) r.count("relink:restore below depth 1");
+				if (dep > 1) cnt("relink:restore below depth 1");
 			}
 			sig = guarded([&] { LIB((mpt::mpt_gnode_relink(pa), 0)); });
 			break; }
 		}
-		r.count(std::string("op:") + kname[d.k]);
+		cnt(std::string("op:") + kname[d.k]);
 		if (sig) return fail(signame(sig), "the call faults");
 		// ---------------- observation
 		for (int x : deaths) { E.alive[x] = false; E.par[x] = -1; E.kids[x].clear(); }
@@ -616,7 +625,7 @@ struct HSys {
 			// by-name add with `first` inside the list: namesakes before `first` make the code give up; the header does not
 			// say what must happen then, the node simply stays unlinked (links stay sound): counted, not flagged
 			std::string k2, w2;
-			if (d.k == NADD && cur.index_of(a) != 0 && cmp_forest(cur, G, std::set<int>(), k2, w2)) r.count("node_add:first is not the list head, node left unlinked (not flagged)");
+			if (d.k == NADD && cur.index_of(a) != 0 && cmp_forest(cur, G, std::set<int>(), k2, w2)) cnt("node_add:first is not the list head, node left unlinked (not flagged)");
 			else return fail(kind, why + "; expected " + forest_str(E) + ", got " + forest_str(G));
 		}
 		if (move_ret != move_want) return fail("count", fmt("returned %ld moved elements, %ld were moved", move_ret, move_want));
@@ -634,13 +643,13 @@ struct HSys {
 				p[i] = 0;
 			}
 		}
-		if (ledger_live() != nalive) return fail("not-released", fmt("%zu node allocations are live, population has %zu nodes", ledger_live(), nalive));
+		if (ledger_live() - lbase != nalive) return fail("not-released", fmt("%zu node allocations are live, population has %zu nodes", ledger_live() - lbase, nalive));
 		size_t mlive = 0; for (CountMeta *c : g_metas) { if (!c->released) ++mlive; if (c->bad) return fail("value-refcount", "a value was unreferenced after its release"); }
 		if (mlive != nalive) return fail("value-refcount", fmt("%zu values are live, population has %zu nodes", mlive, nalive));
 		cur = G;
 		// ---------------- the library's own walkers must agree with the structure
-		if (!traversals()) return false;
-		if (pre_linked || cur.any_link()) r.count("nontrivial");
+		if (live() && !traversals()) return false;
+		if (pre_linked || cur.any_link()) cnt("nontrivial");
 		return true;
 	}
 };
@@ -664,9 +673,11 @@ static std::string pshow(const std::vector<PEnt> &l)
 	for (const PEnt &e : l) { s += (s.empty() ? "" : " ") + std::string(1, NAMECH[e.name]); if (e.sect) s += "{" + pshow(e.kids) + "}"; else s += fmt("=%d", e.val); }
 	return s;
 }
+static bool g_pdup;   // the choice vector repeats a text that a shorter vector already produced
 static void pchoose(Ctx &x, std::vector<PEnt> &l, int maxn, int depth, int &val, int &budget)
 {
 	int n = (int) x.choose(maxn + 1);
+	if (n > budget) g_pdup = true;
 	for (int i = 0; i < n && budget > 0; ++i) {
 		PEnt e; e.name = (int) x.choose(2); e.sect = depth > 0 && x.choose(2); e.val = val++; --budget;
 		if (e.sect) pchoose(x, e.kids, 2, depth - 1, val, budget);
@@ -713,24 +724,39 @@ static bool pwalk(const mpt::node *parent, const mpt::node *first, std::set<cons
 		if (n->prev != prev) { kind = "sibling-links"; why = "node '" + name + "' has a wrong prev link"; return false; }
 		MNode m; m.name = name; m.hasval = false;
 		size_t len = 0; const char *data = mpt::mpt_node_data(n, &len);
-		if (data) { m.hasval = true; m.val.assign(data, len); }
+		if (data) { while (len && !data[len - 1]) --len; m.hasval = true; m.val.assign(data, len); }   // stored text may carry its terminator
 		if (!pwalk(n, n->children, seen, m.kids, kind, why, depth + 1)) return false;
 		out.push_back(m);
 	}
 	return true;
 }
-static void parse_case(Run &r, Ctx &x)
+static void parse_case(Run &r, Ctx &x, int part, int parts)
 {
 	guard_install();
-	std::vector<PEnt> A, B; int val = 1, budget = 4;
+	const int nodes = r.tier == Quick ? 3 : 4;      // entries per text
+	std::vector<PEnt> A, B; int val = 1, budget = nodes;
+	g_pdup = false;
 	pchoose(x, A, 2, 2, val, budget);
-	budget = 4; val = 11;
+	budget = nodes; val = 11;
 	pchoose(x, B, 2, 2, val, budget);
+	if (g_pdup) return;
 	std::string ta = ptext(A), tb = ptext(B);
+	if ((int) (fnv(ta.data(), ta.size()) % parts) != part) return;   // the pairs are dealt out to the parse jobs by their first text
 	std::string desc = "mpt_parse_node: first text {" + pshow(A) + "}, second text {" + pshow(B) + "}";
 	r.note("%s", desc.c_str());
 	++r.states;
-	ledger_reset(); asan_error();
+	static bool warm = false;
+	if (!warm) {   // lazily created library singletons (type registry ..) must not count as leaks
+		warm = true;
+		std::string t = "a {\n b = 1\n}\n"; SrcText src = { &t, 0 };
+		mpt::parser_context ctx; ctx.src.getc = text_getc; ctx.src.arg = &src; ctx.src.line = 1;
+		mpt::node *w = mpt::mpt_node_new(0);
+		mpt::mpt_parse_node(w, &ctx, 0); mpt::mpt_node_clear(w); free(w);
+	}
+	static unsigned ncase = 0;
+	if (ledger_live() || (++ncase & 255) == 0) ledger_reset();
+	asan_error();
+	size_t lbase = ledger_live();
 	mpt::node *root = LIB(mpt::mpt_node_new(0));
 	std::string kind, why, stage = "first-parse", cls;
 	auto fail = [&](const std::string &k, const std::string &w) { r.violation("mpt_parse_node|" + cls + "|" + k, desc + " [" + stage + "; " + cls + "; " + k + "]: " + w); };
@@ -757,7 +783,6 @@ static void parse_case(Run &r, Ctx &x)
 		std::set<const void *> seen; std::vector<MNode> got;
 		if (!pwalk(root, root->children, seen, got, kind, why)) { fail(kind, why); bad = true; break; }
 		if (asan_error()) { fail("asan", "walking the result touches released memory"); bad = true; break; }
-		if (ledger_live() != seen.size() + 1) { fail("not-released", fmt("%zu node allocations are live, %zu nodes are reachable from the root", ledger_live() - 1, seen.size())); bad = true; break; }
 		if (mshow(got, true) != mshow(want, true)) { fail("wrong-structure", "tree is {" + mshow(got, false) + "}, merge of old and new entries gives {" + mshow(want, false) + "}"); bad = true; break; }
 		r.count(populated ? (ents.empty() ? "parse:empty text into populated root" : "parse:merge into populated root") : "parse:into empty root");
 		if (populated && !ents.empty()) r.count("nontrivial");
@@ -768,7 +793,7 @@ static void parse_case(Run &r, Ctx &x)
 		int sig = guarded([&] { LIB(mpt::mpt_node_clear(root)); });
 		if (sig) fail(signame(sig), "mpt_node_clear of the parsed tree faults");
 		else if (asan_error()) fail("asan", "clearing the parsed tree: memory error");
-		else if (ledger_live() != 1) fail("not-released", fmt("%zu allocations survive mpt_node_clear of the root", ledger_live() - 1));
+		else if (ledger_live() - lbase != 1) fail("not-released", fmt("%zu allocations survive mpt_node_clear of the root", ledger_live() - lbase - 1));
 		else free(root);
 	}
 	asan_error();
@@ -783,18 +808,21 @@ static void multisets(int n, std::vector<std::string> &out, std::string cur = ""
 }
 void mc_jobs(Tier t, std::vector<std::string> &jobs)
 {
+	// names "a" and "b" are interchangeable for the code: one job per multiset with #a >= #b
+	auto canon_ms = [](const std::vector<std::string> &in) { std::vector<std::string> o; for (auto &s : in) if (std::count(s.begin(), s.end(), 'a') >= std::count(s.begin(), s.end(), 'b')) o.push_back(s); return o; };
 	std::vector<std::string> m3, m4, m5;
 	multisets(3, m3); multisets(4, m4); multisets(5, m5);
+	m3 = canon_ms(m3); m4 = canon_ms(m4); m5 = canon_ms(m5);
 	if (t == Quick) {
-		for (auto &s : m3) jobs.push_back("hist:" + s + ":0,1,2,3:5");
-		for (auto &s : m4) jobs.push_back("hist:" + s + ":0,1,2,3,4,5,6:3");
-		for (const char *s : { "aab--", "aabb-", "ab---" }) jobs.push_back(std::string("hist:") + s + ":4,5,6:2");
+		for (auto &s : m3) jobs.push_back("hist:" + s + ":0,1,2,3:6");
+		for (auto &s : m4) jobs.push_back("hist:" + s + ":0,1,2,3,4,5,6:4");
+		for (auto &s : m5) jobs.push_back("hist:" + s + ":0,1,2,3,4,5,6:2");
 	} else {
-		for (auto &s : m3) jobs.push_back("hist:" + s + ":0,1,2,3:7");
-		for (auto &s : m4) jobs.push_back("hist:" + s + ":0,1,2,3,4,5,6:5");
-		for (auto &s : m5) jobs.push_back("hist:" + s + ":0,1,2,3,4,5,6:3");
+		for (auto &s : m3) jobs.push_back("hist:" + s + ":0,1,2,3:8");
+		for (auto &s : m4) jobs.push_back("hist:" + s + ":0,1,2,3,4,5,6:7");
+		for (auto &s : m5) jobs.push_back("hist:" + s + ":0,1,2,3,4,5,6:4");
 	}
-	jobs.push_back("parse");
+	for (int k = 0; k < 16; ++k) jobs.push_back(fmt("parse:%d/16", k));
 }
 static int setup(const std::string &job, std::vector<uint64_t> &inits)
 {
@@ -818,14 +846,16 @@ void mc_explore(Run &r, const std::string &job)
 {
 	for (const char *k : required) r.require(k);
 	for (int k = 0; k < NK; ++k) r.require(std::string("op:") + kname[k]);
-	if (job == "parse") { dfs(r, [&](Ctx &x) { parse_case(r, x); }); return; }
+	if (job.compare(0, 6, "parse:") == 0) { int k = atoi(job.c_str() + 6), n = atoi(job.c_str() + job.find('/') + 1); dfs(r, [&](Ctx &x) { parse_case(r, x, k, n); }); return; }
 	std::vector<uint64_t> inits;
 	int depth = setup(job, inits);
+	struct timespec t0, t1; clock_gettime(CLOCK_MONOTONIC, &t0);
 	bfs_histories<HSys>(r, inits, depth);
+	clock_gettime(CLOCK_MONOTONIC, &t1); if (getenv("C14_TIME")) fprintf(stderr, "TIME %s %.1f s, %llu transitions\n", job.c_str(), (t1.tv_sec - t0.tv_sec) + 1e-9 * (t1.tv_nsec - t0.tv_nsec), (unsigned long long) r.transitions);
 }
 void mc_replay(Run &r, const std::string &job, const Vec &v)
 {
-	if (job == "parse") { dfs_replay(r, [&](Ctx &x) { parse_case(r, x); }, v); return; }
+	if (job.compare(0, 6, "parse:") == 0) { int k = atoi(job.c_str() + 6), n = atoi(job.c_str() + job.find('/') + 1); dfs_replay(r, [&](Ctx &x) { parse_case(r, x, k, n); }, v); return; }
 	std::vector<uint64_t> inits;
 	setup(job, inits);
 	bfs_replay<HSys>(r, v);
